@@ -115,8 +115,10 @@ theorem goodFrame_of (fr : Frame) (b : Bytes) (hwf : fr.WF) (hs : serializeFrame
     primitives — there are the exported frames `frs` (what the main loop handed to the writer) and their serialisations
     `bs` such that
     * `f` is a well-formed pcapng: a sequence of blocks tiling the file (`walk`: total lengths ≥ 12, multiples of 4, equal
-      to their trailing copies), namely the Section Header Block, ONE Interface Description Block (Ethernet, snaplen
-      20000) and one Enhanced Packet Block per frame, in order, on that interface;
+      to their trailing copies), namely the Section Header Block, ONE Interface Description Block (Ethernet, the snaplen
+      of the source, `Gen.writerSnaplen`) and one Enhanced Packet Block per frame, in order, on that interface, whose
+      Captured Packet Length = Original Packet Length = the frame's length ≤ that snaplen (`C06Bytes.caplen_le_snaplen`;
+      the inequality is checked against the literal REGENERATED from `run()`);
     * the tool's own reader reads `f` back as exactly these frames with their microsecond time stamps;
     * every frame is a `GoodFrame`: parses with the independent parser to the abstract frame's fields, all length
       fields consistent, IPv4 header checksum and TCP/UDP checksum valid, accepted by the tool's own `-c`. -/
@@ -126,10 +128,12 @@ theorem export_wellformed (args : Args) (legacy : Bool) (keyFile : Option Keylog
       walk f = some (
         (0x0A0D0D0A, Spec.Containers.u32 .le 0x1A2B3C4D ++ (Spec.Containers.u16 .le 1 ++ (Spec.Containers.u16 .le 0 ++
           Spec.Containers.u64 .le (2 ^ 64 - 1)))) ::
-        (1, Spec.Containers.u16 .le 1 ++ (Spec.Containers.u16 .le 0 ++ Spec.Containers.u32 .le 20000)) ::
+        (1, Spec.Containers.u16 .le 1 ++ (Spec.Containers.u16 .le 0 ++ Spec.Containers.u32 .le Gen.writerSnaplen)) ::
         (frs.zip bs).map fun fb => (6, C06Bytes.epbBody (fb.2, fb.1.ts))) ∧
       Container.read false f = .ok ((frs.zip bs).map fun fb => Item.pkt ⟨fb.1.ts, 10 ^ 6, 0, false⟩ fb.2) ∧
-      ∀ fb ∈ frs.zip bs, GoodFrame fb.1 fb.2 := by
+      (∀ fb ∈ frs.zip bs, GoodFrame fb.1 fb.2) ∧
+      ∀ fb ∈ frs.zip bs, Container.fld .le (C06Bytes.epbBody (fb.2, fb.1.ts)) 12 4 = fb.2.length ∧
+        Container.fld .le (C06Bytes.epbBody (fb.2, fb.1.ts)) 16 4 = fb.2.length ∧ fb.2.length ≤ Gen.writerSnaplen := by
   unfold exportFile at h
   by_cases hopt : optionsBad freshState args = true
   · unfold exportFrom at h; rw [if_pos hopt] at h; cases h
@@ -155,8 +159,8 @@ theorem export_wellformed (args : Args) (legacy : Bool) (keyFile : Option Keylog
   have heq := Lemmas.OutBytes.fileOfFrames_eq frs hall
   have hp : pcapng (frs.map fun fr => (Lemmas.OutBytes.frameBytes fr, fr.ts)) = .ok f := by
     rw [← heq]; exact hw'
-  refine ⟨frs, frs.map Lemmas.OutBytes.frameBytes, by simp, ?_, ?_, ?_⟩
-  · rw [C06Bytes.pcapng_wellformed _ f hp]
+  refine ⟨frs, frs.map Lemmas.OutBytes.frameBytes, by simp, ?_, ?_, ?_, ?_⟩
+  · rw [(C06Bytes.pcapng_wellformed _ f hp).1]
     simp only [List.zip_map_right, C06Bytes.zip_self, List.map_map]
     rfl
   · rw [C06Bytes.pcapng_roundtrip _ f hp]
@@ -171,6 +175,17 @@ theorem export_wellformed (args : Args) (legacy : Bool) (keyFile : Option Keylog
       · exact he
       · exact absurd hfit hn
     exact goodFrame_of fr _ (hwf' fr hfr) hser
+  · intro fb hfb
+    rw [List.zip_map_right, C06Bytes.zip_self, List.map_map, List.mem_map] at hfb
+    obtain ⟨fr, hfr, rfl⟩ := hfb
+    have hser : serializeFrame fr = .ok (Lemmas.OutBytes.frameBytes fr) := by
+      rcases Lemmas.OutBytes.serialize_cases fr with ⟨_, he⟩ | ⟨hn, _⟩
+      · exact he
+      · exact absurd (hall fr hfr).1 hn
+    obtain ⟨h12, h16⟩ := (C06Bytes.pcapng_wellformed _ f hp).2 (Lemmas.OutBytes.frameBytes fr, fr.ts)
+      (List.mem_map.mpr ⟨fr, hfr, rfl⟩)
+    exact ⟨h12, h16, Nat.le_trans (C06Bytes.frame_length_bound fr _ (hwf' fr hfr) hser)
+      C06Bytes.snaplen_covers_every_frame⟩
 
 /-! ### C18 end to end -/
 
@@ -374,7 +389,7 @@ open Ex in
 /-- a capture with a TCP segment to port 80 and a short-header QUIC-looking datagram (`C06Bytes.exFile`, written by dpkt):
     nothing to decrypt, the output file is the two header blocks -/
 example : exportFile noMask Crypto.realPrims Cipher.Toy.prims args0 false none C06Bytes.exFile
-    = .file (OutBytes.shb ++ OutBytes.idb 20000) := by decide +kernel
+    = .file (OutBytes.shb ++ OutBytes.idb Gen.writerSnaplen) := by decide +kernel
 open Ex in
 example : exportFile noMask Crypto.realPrims Cipher.Toy.prims args0 false none []
     = .abort (.ingest (.container .hdrShort)) := by decide +kernel
